@@ -162,7 +162,9 @@ Proof.
   - apply blin_scale.
   - apply andb_prop in Hw as [Hw _]. apply Nat.eqb_eq in Hw. apply blin_mulv. exact Hw.
   - apply blin_mvec. apply forallb_len. exact Hw.
-  - apply blin_dot. reflexivity.
+  - apply Nat.eqb_eq in Hw.
+    apply (blin_ext _ _ (fun d => [dot d (vmul w v)])); [intros d; cbn [leval]; rewrite wdot_as_dot_r; reflexivity|].
+    apply blin_dot. unfold vmul. apply vmap2_len; auto.
   - apply blin_zero.
   - apply Nat.eqb_eq in Hw. rewrite (all_zero_zeros c Hl), Hw. apply blin_zero.
   - apply Z.eqb_eq in Hl. subst p.
@@ -270,26 +272,37 @@ Proof.
   - (* LNorm *)
     cbn [lderiv lderiv_ok ldom lran lwt leval lregular sdim PR rt] in *.
     unfold sound. cbn [eval leval is_lin llin wt lwt dom ran ldom lran sdim].
-    assert (Hpos : 0 < dot x x).
-    { apply sqrt_neq0_pos; [apply dot_self_nonneg|].
-      numR. destruct (Reqb_spec (sqrt (dot x x)) 0); [discriminate Hok|assumption]. }
+    assert (Hnz : sqrt (wdot w x x) <> 0).
+    { numR. destruct (Reqb_spec (sqrt (wdot w x x)) 0); [discriminate Hok|assumption]. }
+    assert (Hpos : 0 < wdot w x x).
+    { destruct (Rle_or_lt (wdot w x x) 0) as [Hle|Hlt]; [|exact Hlt].
+      exfalso. apply Hnz. apply sqrt_neg_0. exact Hle. }
+    assert (Hml : length (map (fun a : R => a / sqrt (wdot w x x)) x) = length w) by (rewrite map_length; exact Hx).
     ssplit; auto.
-    + intros g d Hc. apply (curve_norm n); assumption.
-    + apply blin_dot. rewrite map_length. exact Hx.
-    + rewrite map_length. f_equal. exact Hx.
+    + intros g d Hc. apply (curve_wnorm (length w)); auto.
+    + apply (blin_ext _ _ (fun d => [dot d (vmul w (map (fun a : R => a / sqrt (wdot w x x)) x))]));
+        [intros d; cbn [eval leval]; rewrite (wdot_as_dot_r w d); reflexivity|].
+      apply blin_dot. unfold vmul. apply vmap2_len; auto.
+    + rewrite map_length, Hx. apply Nat.eqb_refl.
   - (* LDist *)
-    cbn [lderiv lderiv_ok ldom lran lwt leval lregular sdim PR rt] in *. unfold normsq in *.
+    cbn [lderiv lderiv_ok ldom lran lwt leval lregular sdim PR rt] in *.
+    apply Nat.eqb_eq in Hw.
     unfold sound. cbn [eval leval is_lin llin wt lwt dom ran ldom lran sdim].
-    assert (Hpos : 0 < dot (vsub x v) (vsub x v)).
-    { apply sqrt_neq0_pos; [apply dot_self_nonneg|].
-      numR. destruct (Reqb_spec (sqrt (dot (vsub x v) (vsub x v))) 0); [discriminate Hok|assumption]. }
-    assert (Hsub : length (vsub x v) = length v) by (unfold vsub; apply vmap2_len; auto).
-    ssplit; auto.
+    set (df := vsub x v) in *.
+    assert (Hnz : sqrt (wdot w df df) <> 0).
+    { numR. destruct (Reqb_spec (sqrt (wdot w df df)) 0); [discriminate Hok|assumption]. }
+    assert (Hpos : 0 < wdot w df df).
+    { destruct (Rle_or_lt (wdot w df df) 0) as [Hle|Hlt]; [|exact Hlt].
+      exfalso. apply Hnz. apply sqrt_neg_0. exact Hle. }
+    assert (Hsub : length df = length v) by (unfold df, vsub; apply vmap2_len; auto).
+    assert (Hml : length (map (fun a : R => a / sqrt (wdot w df df)) df) = length v) by (rewrite map_length; exact Hsub).
+    ssplit; auto; try (rewrite map_length, Hsub, ?Hw; try apply Nat.eqb_refl; reflexivity).
     + intros g d Hc.
-      apply (curve_norm (length v) (fun t => vsub (g t) v) (vsub x v) d); [|exact Hpos].
+      apply (curve_wnorm (length v) w (fun t => vsub (g t) v) df d); [|exact Hw|exact Hpos].
       apply curve_sub_const; [exact Hc|reflexivity].
-    + apply blin_dot. rewrite map_length. exact Hsub.
-    + rewrite map_length. f_equal. exact Hsub.
+    + apply (blin_ext _ _ (fun d => [dot d (vmul w (map (fun a : R => a / sqrt (wdot w df df)) df))]));
+        [intros d; cbn [eval leval]; rewrite (wdot_as_dot_r w d); reflexivity|].
+      apply blin_dot. unfold vmul. apply vmap2_len; auto.
   - (* LAbs *)
     cbn [lderiv ldom lran lwt leval PR afun adom aran] in *.
     destruct (Habs k x Hx) as [Hh Hb].
@@ -1113,7 +1126,7 @@ Definition ex_tree : @oexpr R :=
   OSum (OComp (OLeaf (LUf Usquare 2)) (ORScal (OLeaf (LAbs 2)) 2))
        (OSum (OPProd (OLVec (OLeaf (LUf Ureciprocal 2)) [1; 2])
                      (OVecSum (ORVec (OLScal (OLeaf (LPow (SV 2) 3)) 3) [2; 1]) [1; 1]))
-             (OComp (OReduction [OLeaf (LUf Usquare 2); OFLVec (OLeaf (LInner [2])) [1; 1]])
+             (OComp (OReduction [OLeaf (LUf Usquare 2); OFLVec (OLeaf (LInner [3] [2])) [1; 1]])
                     (OComp (OPSO [2; 1]%nat [2; 1]%nat
                                   [(0%nat, 0%nat, OLeaf (LUf Usquare 2)); (1%nat, 1%nat, OLeaf (LScale (SV 1) 3));
                                    (0%nat, 0%nat, OLeaf (LAbs 2))])
